@@ -161,7 +161,7 @@ def run_shards(pid, cfg, binp, tier, seed, nshards, scale, wd, only_shard=None, 
             p = subprocess.Popen(base + ["--out", out, "--hashes", hs], stdout=subprocess.DEVNULL, stderr=errf)
             procs.append((s, [p], out, hs, errf))
         else:
-            p1 = subprocess.Popen(base + ["--out", "-"], stdout=subprocess.PIPE, stderr=errf)
+            p1 = subprocess.Popen(base + ["--out", "-", "--hashes", hs + ".drv"], stdout=subprocess.PIPE, stderr=errf)
             p2 = subprocess.Popen([PY, os.path.join(ORACLES, cfg["oracle"]), "--out", out, "--hashes", hs,
                                    "--tier", tier, "--prop", pid],
                                   stdin=p1.stdout, stdout=subprocess.DEVNULL, stderr=errf)
@@ -186,6 +186,24 @@ def wait_shards(procs, watchdog_s):
             if rc != 0:
                 problems.append(f"shard {s}: process exit {rc}")
         errf.close()
+        hang = None
+        for cand in (out + ".hang", hs + ".drv.hang"):
+            if os.path.exists(cand):
+                hang = cand
+        if hang and any(p.returncode == 97 for p in ps):
+            # the driver's CPU-time watchdog fired inside one library call: that is an observation, not a harness failure
+            w = json.load(open(hang))
+            w["_hang"] = True
+            synth = {"property": w.get("property"), "evaluations": w.get("guarded_calls_completed", 0), "distinct": 0, "counters": {},
+                     "samples": [], "violations": [w], "n_violations": 1, "violation_sigs": {w["sig"]: 1}, "max_ratio": 0.0,
+                     "max_ratio_at": None, "canaries_fed": 0, "canaries_flagged": 0, "panics": 0, "notes": ["driver stopped by hang watchdog"],
+                     "floors": [], "extra": {}, "wall_s": 0.0}
+            for q in ps:
+                if q.poll() is None:
+                    q.kill()
+            with open(out, "w") as fo:
+                json.dump(synth, fo)
+            problems = [x for x in problems if not x.startswith(f"shard {s}:")]
     return problems
 
 
@@ -261,8 +279,8 @@ def sweep(pid, tot, bins, ids, tier, seed, nshards, scale, wd, watchdog, t0):
             d = json.load(open(out))
             ops += d["evaluations"]
             for v in d["violations"]:
-                if "panic" in v:
-                    sig = f"panic in {q} workload: {v.get('sig', '?')}"
+                if "panic" in v or v.get("_hang"):
+                    sig = f"{'hang' if v.get('_hang') else 'panic'} in {q} workload: {v.get('sig', '?')}"
                     tot["violation_sigs"][sig] = tot["violation_sigs"].get(sig, 0) + 1
                     tot["n_violations"] += 1
                     tot["panics"] += 1
